@@ -1,5 +1,6 @@
 """C12 - data-directory validation, repairs, statistics report, sos/eos (E3 over real directories)."""
 
+import contextlib
 import itertools
 import os
 import random
@@ -37,6 +38,15 @@ RULE = (
     "expanded state all four transitions are compared with spec_valid/spec_repair; in valid states the "
     "report of get-torch-spect-data-dir-info (with and without --strict) is compared with a recount; "
     "depth-0 single-utterance states are also pushed through the command's --strict/--fix k. "
+    "Layout spellings: file_prefix {'', 'utt-', 'a'} x file_suffix {'.pt', '', '.feat.pt'} x {default, renamed} "
+    "feat/ali/ref sub-directories, 7 utterances whose ids start with prefix characters / end with suffix "
+    "characters / are prefixes of one another (ta1, a1, tt, u1, u10, ap, a.feat) and have different T and "
+    "tokens, ill-formed decoy files with another prefix/suffix in every sub-directory; initial states = all "
+    "clean + each utterance in turn carrying {ali T+1, ali T-1, half-open ref}; the discovered utt_ids "
+    "(SpectDataSet and LangDataSet) and every read item must be exactly the planted ones, then the same "
+    "exploration (function and command --strict/--fix 0|1|2, info recount). Modes: a slice with every "
+    "verdict class (all feature variants, mixed-dtype pairs) re-explored under "
+    "torch.set_default_dtype(float64) and under torch.inference_mode (plain and sos/eos data sets). "
     "sos/eos: every token list |x|<=3 over {0,1,2} x stored 1-D / (R,3) x tokens_only x 4 sos/eos "
     "settings x {SpectDataSet, LangDataSet}. A state is non-trivial when it carries >=1 injected defect."
 )
@@ -54,12 +64,17 @@ ASSUMPTIONS = [
     "total_tokens: with ref/ present but every listed transcript empty both 0 and -1 are accepted "
     "('the sum of R ... (if available, -1 if not)' is ambiguous); such reports are counted",
     "quick tier: non-plain data-set configurations only on directories whose features are ok",
+    "layout family: one defect at a time among 7 otherwise clean utterances; decoys are impossible (and not "
+    "planted) when prefix and suffix are both empty; sub-directory names without path separators",
+    "global torch modes explored: default dtype float64 and inference_mode only (no autocast, no "
+    "deterministic-algorithms switch), on a 64-directory slice",
 ]
 BUDGET_S = {"quick": 240, "thorough": 2400}
 
 SOS, EOS = 7, 8
 F = 2
 FIXES = (None, 0, 1, 2)
+MODE = [None]  # global torch mode the current shard runs under (part of sigs and replay cases)
 CONFIGS = ("plain", "sos_eos", "tokens_only", "with_uttids")
 
 
@@ -215,17 +230,35 @@ def from_tensor(t):
     return O.tens(str(t.dtype)[6:], list(t.shape), t.tolist())
 
 
+DEFAULT_SUBDIRS = {"feat": "feat", "ali": "ali", "ref": "ref"}
+
+
 class Dir:
     """A real directory whose content follows the requested state (only differing files are rewritten).
 
     Snapshots compare raw file bytes with the bytes last seen and only deserialise files whose bytes
-    changed (identical bytes => identical tensor; anything else is loaded and compared by value)."""
+    changed (identical bytes => identical tensor; anything else is loaded and compared by value).
 
-    def __init__(self, root):
+    States are always keyed canonically ("feat/<utt>.pt", "decoy-feat/<file name>"); `layout`
+    ({"prefix", "suffix", "subdirs"}) says how the keys are spelt on disk."""
+
+    def __init__(self, root, layout=None):
         self.root = root
+        self.layout = layout
         self.content = None
         self.raw = {}
         self.out = root + ".info"
+
+    def subdir(self, kind):
+        return (self.layout["subdirs"] if self.layout else DEFAULT_SUBDIRS)[kind]
+
+    def real(self, key):
+        if self.layout is None:
+            return key
+        sd, fn = key.split("/")
+        if sd.startswith("decoy-"):
+            return self.subdir(sd[6:]) + "/" + fn
+        return self.subdir(sd) + "/" + self.layout["prefix"] + fn[: -len(O.SUFFIX)] + self.layout["suffix"]
 
     def ensure(self, state):
         if self.content == state:
@@ -233,17 +266,18 @@ class Dir:
         if self.content is None:
             shutil.rmtree(self.root, ignore_errors=True)
             self.content, self.raw = {}, {}
-        os.makedirs(os.path.join(self.root, "feat"), exist_ok=True)
+        featdir = os.path.join(self.root, self.subdir("feat"))
+        os.makedirs(featdir, exist_ok=True)
         for path in list(self.content):
             if path not in state:
-                os.remove(os.path.join(self.root, path))
+                os.remove(os.path.join(self.root, self.real(path)))
                 self.raw.pop(path, None)
-                sd = os.path.dirname(os.path.join(self.root, path))
-                if not os.listdir(sd) and not sd.endswith("feat"):
+                sd = os.path.dirname(os.path.join(self.root, self.real(path)))
+                if not os.listdir(sd) and sd != featdir:
                     os.rmdir(sd)
         for path, t in state.items():
             if self.content.get(path) != t:
-                p = os.path.join(self.root, path)
+                p = os.path.join(self.root, self.real(path))
                 os.makedirs(os.path.dirname(p), exist_ok=True)
                 torch.save(to_tensor(t), p)
                 with open(p, "rb") as f:
@@ -252,9 +286,11 @@ class Dir:
 
     def snapshot(self):
         out, raw = {}, {}
+        inverse = {self.real(k): k for k in (self.content or {})}
         for sd in sorted(os.listdir(self.root)):
             for fn in sorted(os.listdir(os.path.join(self.root, sd))):
-                path = sd + "/" + fn
+                rp = sd + "/" + fn
+                path = inverse.get(rp, rp if self.layout is None else "stray-" + rp)
                 with open(os.path.join(self.root, sd, fn), "rb") as f:
                     b = f.read()
                 raw[path] = b
@@ -269,6 +305,19 @@ class Dir:
         self.content, self.raw = out, raw
         return out
 
+    def ds_kwargs(self):
+        if self.layout is None:
+            return {}
+        return dict(file_prefix=self.layout["prefix"], file_suffix=self.layout["suffix"],
+                    feat_subdir=self.subdir("feat"), ali_subdir=self.subdir("ali"), ref_subdir=self.subdir("ref"))
+
+    def cli_args(self):
+        if self.layout is None:
+            return []
+        return ["--file-prefix=" + self.layout["prefix"], "--file-suffix=" + self.layout["suffix"],
+                "--feat-subdir", self.subdir("feat"), "--ali-subdir", self.subdir("ali"),
+                "--ref-subdir", self.subdir("ref")]
+
     def close(self):
         shutil.rmtree(self.root, ignore_errors=True)
         shutil.rmtree(self.root + ".hyp", ignore_errors=True)
@@ -282,15 +331,16 @@ def scratch(tag):
     return os.path.join(base, "c12-" + tag)
 
 
-def make_ds(root, config):
+def make_ds(D, config):
     if config == "sos_eos":
         params = data.SpectDataParams(sos=SOS, eos=EOS)
     elif config == "with_uttids":
         params = data.SpectDataParams(delta_order=1)  # a feature transform as well as utterance ids
     else:
         params = None
-    return data.SpectDataSet(root, params=params, warn_on_missing=False, suppress_alis=False,
-                             tokens_only=(config == "tokens_only"), suppress_uttids=(config != "with_uttids"))
+    return data.SpectDataSet(D.root, params=params, warn_on_missing=False, suppress_alis=False,
+                             tokens_only=(config == "tokens_only"), suppress_uttids=(config != "with_uttids"),
+                             **D.ds_kwargs())
 
 
 # ---- one long-lived data set object per exploration (histories on ONE object) -----------------
@@ -318,7 +368,7 @@ class Obj:
     def renew(self, current):
         """(re)build the object on the directory as it is now (`current` = its content)."""
         self.init = current
-        self.ds = make_ds(self.D.root, self.config)
+        self.ds = make_ds(self.D, self.config)
         self.cfg0 = public_config(self.ds)
         self.transform0 = self.ds.transform
         self.calls = []  # [(state, fix)] made on this object
@@ -369,7 +419,7 @@ def check_object(ctx, obj, fix, raised):
     ctx.count("object_checks")
     base = {"api": "validate_spect_data_set", "config": config, "fix": "none" if fix is None else fix,
             "symptom": "data-set-object-changed-by-validation", "after": "raise" if raised else "success"}
-    case = {"kind": "object-history", "config": config, "init": obj.init,
+    case = {"kind": "object-history", "layout": D.layout, "mode": MODE[0], "config": config, "init": obj.init,
             "calls": [{"state": st, "fix": fx} for st, fx in obj.calls]}
     found = []
     cfg = public_config(ds)
@@ -381,7 +431,7 @@ def check_object(ctx, obj, fix, raised):
                       {"before": {a: obj.cfg0.get(a, "transform") for a in diff},
                        "after": {a: cfg.get(a, repr(ds.transform)) for a in diff}}))
     if config != "plain" or diff:
-        got, want = read_all(ds), read_all(make_ds(D.root, config))
+        got, want = read_all(ds), read_all(make_ds(D, config))
         bad = [i for i in range(max(len(got), len(want)))
                if i >= len(got) or i >= len(want) or not same_item(got[i], want[i])]
         if bad:
@@ -437,9 +487,9 @@ def run_validate(D, config, fix, entry, ds=None):
         warnings.simplefilter("always")
         try:
             if entry == "function":
-                data.validate_spect_data_set(ds if ds is not None else make_ds(D.root, config), fix)
+                data.validate_spect_data_set(ds if ds is not None else make_ds(D, config), fix)
             else:
-                args = [D.root, D.out] + (["--strict"] if fix is None else ["--fix", str(fix)])
+                args = [D.root, D.out] + D.cli_args() + (["--strict"] if fix is None else ["--fix", str(fix)])
                 rc = CL.get_torch_spect_data_dir_info(args)
                 if rc:
                     err = ("exit-code", str(rc))
@@ -481,7 +531,12 @@ def eval_transition(ctx, D, state, config, fix, entry="function", after_fix=Fals
     fx = "none" if fix is None else fix
     base = {"api": "validate_spect_data_set" if entry == "function" else "get-torch-spect-data-dir-info",
             "config": config, "fix": fx}
-    case = {"kind": "transition", "state": state, "config": config, "fix": fix, "entry": entry}
+    case = {"kind": "transition", "layout": D.layout, "mode": MODE[0], "state": state, "config": config, "fix": fix,
+            "entry": entry}
+    if MODE[0]:
+        base["mode"] = MODE[0]
+    if D.layout:
+        base["layout"] = "non-default"
     changed = diff_paths(state, post)
     found = []  # (sig, detail)
     raised = err is not None
@@ -612,11 +667,11 @@ def compare_report(ctx, report, state, case, via):
 
 def check_info(ctx, D, state):
     """plain and --strict report in a valid state."""
-    case = {"kind": "info", "state": state}
+    case = {"kind": "info", "layout": D.layout, "mode": MODE[0], "state": state}
     for flag in ((), ("--strict",)):
         D.ensure(state)
         try:
-            rc = CL.get_torch_spect_data_dir_info([D.root, D.out] + list(flag))
+            rc = CL.get_torch_spect_data_dir_info([D.root, D.out] + D.cli_args() + list(flag))
             rep = read_report(D.out) if not rc else None
         except Exception as e:  # noqa
             ctx.violation({"api": "get-torch-spect-data-dir-info", "symptom": "raises", "type": type(e).__name__,
@@ -680,6 +735,155 @@ def run_explore(ctx, spec, tier, seed):
                             "spec_repair_k1": O.spec_repair(init, 1)})
             cli = kind == "singles" and config == "plain" and (tier == "thorough" or sp[0][2] == "ok")
             explore_from(ctx, D, init, config, visited, cli=cli)
+    finally:
+        D.close()
+        try:
+            os.rmdir(os.path.dirname(D.root))
+        except OSError:
+            pass
+
+
+# =========================================================================================
+# alias / degenerate spellings of the directory layout; global torch modes
+# =========================================================================================
+PREFIXES = ("", "utt-", "a")
+SUFFIXES = (".pt", "", ".feat.pt")
+CUSTOM_SUBDIRS = {"feat": "fbank", "ali": "pdf", "ref": "txt"}
+# ids starting with characters of a prefix, ending with characters of a suffix, prefixes of one another
+LAYOUT_IDS = ("ta1", "a1", "tt", "u1", "u10", "ap", "a.feat")
+DECOY_NAMES = ("zz-a1.pt", "utt-a1.bak", "b1.feat.txt")
+LAYOUT_DEFECTS = (None, ("ali", "T+1"), ("ali", "T-1"), ("ref", 3))  # repairable k>=1 / never / any k
+
+
+def layout_state(layout, defect_at, defect, seed):
+    d = {}
+    for i, uid in enumerate(LAYOUT_IDS):
+        T = 2 + i
+        av, rv = "ok", ("2d", (1,))
+        if defect is not None and i == defect_at:
+            if defect[0] == "ali":
+                av = defect[1]
+            else:
+                rv = ("2d", (defect[1],))
+        d["feat/%s.pt" % uid] = feat_tensor("ok", T, _rng(seed, uid, "lfeat"))
+        d["ali/%s.pt" % uid] = ali_tensor(av, T, _rng(seed, uid, "lali", av), [0, 1, 2])
+        d["ref/%s.pt" % uid] = ref_tensor(rv, T, _rng(seed, uid, "lref"), [i])
+    for kind in ("feat", "ali", "ref"):
+        for name in DECOY_NAMES:
+            if not (name.startswith(layout["prefix"]) and name.endswith(layout["suffix"])):
+                d["decoy-%s/%s" % (kind, name)] = O.tens("float32", [2], [0.5, -0.5])  # ill-formed on purpose
+    return {p: from_tensor(to_tensor(t)) for p, t in d.items()}
+
+
+def check_discovery(ctx, D, state):
+    """The data set must list exactly the planted utterances and read exactly their files."""
+    D.ensure(state)
+    want = O.utterances(state)
+    case = {"kind": "discovery", "layout": D.layout, "mode": MODE[0], "state": state}
+    sig = {"symptom": "discovered-ids-differ-from-planted", "layout": "non-default" if D.layout else "default"}
+    ctx.case(1)
+    try:
+        ds = data.SpectDataSet(D.root, warn_on_missing=False, suppress_alis=False, tokens_only=False,
+                               suppress_uttids=False, **D.ds_kwargs())
+        got = list(ds.utt_ids)
+    except Exception as e:  # noqa
+        ds, got = None, ["<raises>", type(e).__name__, str(e)[-200:]]
+    ctx.outcome(["discovery", want])
+    if got != want:
+        ctx.violation(dict(sig, api="SpectDataSet.utt_ids"), case, {"planted": want, "discovered": got})
+    elif ds is not None:
+        for i, uid in enumerate(want):
+            try:
+                item = ds[i]
+                exp = (to_tensor(state["feat/%s.pt" % uid]),
+                       to_tensor(state["ali/%s.pt" % uid]) if O.subdir(state, "ali") else None,
+                       to_tensor(state["ref/%s.pt" % uid]) if O.subdir(state, "ref") else None, uid)
+                ok = same_item(item, exp)
+            except Exception as e:  # noqa
+                ok, item = False, ("<raises>", type(e).__name__, str(e)[-200:])
+            if not ok:
+                ctx.violation({"api": "SpectDataSet.__getitem__", "symptom": "item-is-not-the-planted-utterance",
+                               "layout": sig["layout"]}, case, {"utt": uid, "observed": show_item(item)})
+                break
+    refs = sorted(O.subdir(state, "ref"))
+    if refs:
+        ctx.case(1)
+        try:
+            kw = D.ds_kwargs()
+            got = list(data.LangDataSet(os.path.join(D.root, D.subdir("ref")), file_prefix=kw.get("file_prefix", ""),
+                                        file_suffix=kw.get("file_suffix", ".pt")).utt_ids)
+        except Exception as e:  # noqa
+            got = ["<raises>", type(e).__name__]
+        if got != refs:
+            ctx.violation(dict(sig, api="LangDataSet.utt_ids"), case, {"planted": refs, "discovered": got})
+
+
+def layouts_of(spec):
+    return [{"prefix": spec["prefix"], "suffix": spec["suffix"], "subdirs": sub}
+            for sub in (DEFAULT_SUBDIRS, CUSTOM_SUBDIRS)]
+
+
+def run_layout(ctx, spec, tier, seed):
+    for n, layout in enumerate(layouts_of(spec)):
+        D = Dir(scratch("layout-%d" % n), layout=layout)
+        visited = set()
+        try:
+            for defect in LAYOUT_DEFECTS:
+                for at in (range(len(LAYOUT_IDS)) if defect is not None else (0,)):
+                    init = layout_state(layout, at, defect, seed)
+                    ctx.key(["layout", layout, h64(init)], nontrivial=True)
+                    if defect is None and n == 0:
+                        ctx.sample({"layout": layout, "files": sorted(D.real(k) for k in init),
+                                    "planted_ids": O.utterances(init)})
+                    check_discovery(ctx, D, init)
+                    explore_from(ctx, D, init, "plain", visited, cli=True)
+        finally:
+            D.close()
+            try:
+                os.rmdir(os.path.dirname(D.root))
+            except OSError:
+                pass
+
+
+@contextlib.contextmanager
+def mode_ctx(mode):
+    MODE[0] = mode
+    old = torch.get_default_dtype()
+    try:
+        if mode == "default-float64":
+            torch.set_default_dtype(torch.float64)
+            yield
+        elif mode == "inference_mode":
+            with torch.inference_mode():
+                yield
+        else:
+            yield
+    finally:
+        torch.set_default_dtype(old)
+        MODE[0] = None
+
+
+def mode_specs():
+    """A slice that contains every verdict class (float64 / mixed dtype features in particular)."""
+    out = [[("a", 3, fv, av, rv)] for fv in FEATS for av in ("ok", "int32", "T+1")
+           for rv in (("1d",), ("2d", (1,)), ("2d", (6,)), ("2d-int32", (3,)))]
+    Ta, Tb = UTTS["a"][0], UTTS["b"][0]
+    for fa, fb in itertools.product(FEATS, FEATS):
+        out.append([("a", Ta, fa, "int32", ("2d", (3,))), ("b", Tb, fb, "T+1", ("2d", (6,)))])
+    return out
+
+
+def run_modes(ctx, spec, tier, seed):
+    D = Dir(scratch("mode-" + spec["mode"]))
+    visited = set()
+    try:
+        with mode_ctx(spec["mode"]):
+            for sp in mode_specs():
+                init = build_state(sp, seed)
+                ctx.key(["mode", spec["mode"], h64(init)], nontrivial=is_defect(sp))
+                for config in ("plain", "sos_eos"):
+                    explore_from(ctx, D, init, config, visited if config == "plain" else set(),
+                                 cli=config == "plain")
     finally:
         D.close()
         try:
@@ -806,6 +1010,8 @@ def shards(tier, seed):
         of = max(1, -(-n // per))
         return [{"kind": kind, "config": config, "part": i, "of": of} for i in range(of)]
 
+    out += [{"kind": "layout", "prefix": p, "suffix": x} for p in PREFIXES for x in SUFFIXES]
+    out += [{"kind": "modes", "mode": m} for m in ("default-float64", "inference_mode")]
     out += split("singles", "plain", 1.6)  # plain shards also do the report and the command
     out += split("pairs", "plain", 1.5)
     out += split("singles", "sos_eos")
@@ -820,6 +1026,10 @@ def run_shard(spec, tier, seed):
     ctx = Ctx()
     if spec["kind"] == "roundtrip":
         run_roundtrip(ctx, spec, tier, seed)
+    elif spec["kind"] == "layout":
+        run_layout(ctx, spec, tier, seed)
+    elif spec["kind"] == "modes":
+        run_modes(ctx, spec, tier, seed)
     else:
         run_explore(ctx, spec, tier, seed)
     return ctx
@@ -827,26 +1037,29 @@ def run_shard(spec, tier, seed):
 
 def replay(case):
     ctx = Ctx()
-    D = Dir(scratch("replay"))
+    D = Dir(scratch("replay"), layout=case.get("layout"))
     try:
-        if case["kind"] == "transition":
-            eval_transition(ctx, D, case["state"], case["config"], case["fix"], entry=case["entry"])
-        elif case["kind"] == "object-history":
-            obj = Obj(D, case["config"], case["init"])
-            for call in case["calls"]:
-                D.ensure(call["state"])
-                obj.calls.append((call["state"], call["fix"]))
-                err, _, _ = run_validate(D, case["config"], call["fix"], "function", ds=obj.ds)
-                D.snapshot()
-                if not check_object(ctx, obj, call["fix"], err is not None):
-                    break
-        elif case["kind"] == "info":
-            check_info(ctx, D, case["state"])
-        elif case["kind"] == "roundtrip":
-            roundtrip_case(ctx, D.root, case["cls"], case["ndim"], case["tokens_only"], case["sos"], case["eos"],
-                           case["x"], case["seed"])
-        else:
-            raise ValueError("unknown replay kind %r" % (case["kind"],))
+        with mode_ctx(case.get("mode")):
+            if case["kind"] == "transition":
+                eval_transition(ctx, D, case["state"], case["config"], case["fix"], entry=case["entry"])
+            elif case["kind"] == "object-history":
+                obj = Obj(D, case["config"], case["init"])
+                for call in case["calls"]:
+                    D.ensure(call["state"])
+                    obj.calls.append((call["state"], call["fix"]))
+                    err, _, _ = run_validate(D, case["config"], call["fix"], "function", ds=obj.ds)
+                    D.snapshot()
+                    if not check_object(ctx, obj, call["fix"], err is not None):
+                        break
+            elif case["kind"] == "info":
+                check_info(ctx, D, case["state"])
+            elif case["kind"] == "discovery":
+                check_discovery(ctx, D, case["state"])
+            elif case["kind"] == "roundtrip":
+                roundtrip_case(ctx, D.root, case["cls"], case["ndim"], case["tokens_only"], case["sos"],
+                               case["eos"], case["x"], case["seed"])
+            else:
+                raise ValueError("unknown replay kind %r" % (case["kind"],))
     finally:
         D.close()
         shutil.rmtree(os.path.dirname(D.root), ignore_errors=True)
